@@ -38,9 +38,10 @@ type (
 		Sel string
 	}
 	EQuant struct {
-		Forall bool
-		Vars   []QVar
-		Body   Expr
+		Forall   bool
+		Vars     []QVar
+		Triggers []Expr
+		Body     Expr
 	}
 )
 
@@ -400,6 +401,7 @@ func (ps *parser) primary() Expr {
 // forall i, j int, t *toWrite :: body    (type optional, default int)
 func (ps *parser) quant(forall bool) Expr {
 	var vars []QVar
+	var triggers []Expr
 	for {
 		t := ps.next()
 		if t.kind != "id" {
@@ -408,11 +410,23 @@ func (ps *parser) quant(forall bool) Expr {
 		v := QVar{Name: t.s}
 		// optional type: tokens up to ',' or '::'
 		start := ps.peek().pos
-		for !ps.isOp(",") && !ps.isOp("::") && ps.peek().kind != "eof" {
+		for !ps.isOp(",") && !ps.isOp("::") && !ps.isOp("{") && ps.peek().kind != "eof" {
 			ps.next()
 		}
 		v.Type = strings.TrimSpace(ps.src[start:ps.peek().pos])
 		vars = append(vars, v)
+		if ps.accept("{") {
+			// explicit multi-pattern: { t1, t2 }
+			for !ps.isOp("}") {
+				triggers = append(triggers, ps.expr())
+				if !ps.accept(",") {
+					break
+				}
+			}
+			ps.expect("}")
+			ps.expect("::")
+			break
+		}
 		if ps.accept("::") {
 			break
 		}
@@ -425,7 +439,7 @@ func (ps *parser) quant(forall bool) Expr {
 		}
 	}
 	body := ps.expr()
-	return &EQuant{forall, vars, body}
+	return &EQuant{forall, vars, triggers, body}
 }
 
 // ---------------------------------------------------------------- contract files
@@ -448,6 +462,11 @@ type GhostBlock struct {
 	// at <lock|unlock|call name>#k ghost { x = e; y = e }
 	Anchor string
 	Assign []GhostAssign
+}
+type AnchoredClause struct {
+	Anchor string
+	Assume bool
+	C      Clause
 }
 type GhostAssign struct {
 	LHS Expr
@@ -474,6 +493,7 @@ type FuncSpec struct {
 	Ghost    []GhostBlock
 	Notes    []string
 	Havoc    bool // contract-less: havoc everything
+	Asserts  []AnchoredClause
 	Uses     []string // axioms of other packages visible here: "pkg.label"
 	Implements string // interface method whose contract this function must satisfy (refinement by identity)
 }
@@ -828,6 +848,16 @@ func (sp *Specs) loadFile(path string) error {
 			// at unlock#2 ghost { a = b; c = d }
 			if cur == nil {
 				return fail(d, "at outside func")
+			}
+			if f := strings.Fields(d.text); len(f) >= 2 && (f[1] == "assert" || f[1] == "assume") {
+				// at <anchor> assert label: expr   // prop Cxx
+				rest := strings.TrimSpace(strings.TrimPrefix(strings.TrimSpace(strings.TrimPrefix(d.text, f[0])), f[1]))
+				c, err := clause(rawDirective{kw: f[1], text: rest, line: d.line})
+				if err != nil {
+					return err
+				}
+				cur.Asserts = append(cur.Asserts, AnchoredClause{Anchor: f[0], Assume: f[1] == "assume", C: c})
+				continue
 			}
 			txt := stripComment(d.text)
 			ob := strings.Index(txt, "{")
